@@ -50,7 +50,8 @@ Record KInvV (v : kview) : Prop := {
   k_far : vFar v = false;
   k_cl : vClosed v = true -> vLook v = None /\ vNF v = 0%nat /\ vNR v = 0%nat;
   k_wR : vWR v = true -> vRelc v = 1%nat \/ (vClosed v = false /\ (owesRV v \/ vNR v = 1%nat));
-  k_wF : vWF v = true -> vFinc v = 1%nat \/ (vClosed v = false /\ (owesFV v \/ vNF v = 1%nat)) \/ vLost v = true
+  k_wF : vWF v = true -> vFinc v = 1%nat \/ (vClosed v = false /\ (owesFV v \/ vNF v = 1%nat)) \/ vLost v = true;
+  k_lc : vClosed v = false -> vLost v = false
 }.
 
 Definition GInv (w : world) : Prop := NoDup (keys (regList (pl w))).
@@ -115,16 +116,18 @@ Proof.
     + unfold wantsF. simpl. rewrite N.eqb_refl. intros WF. right. left. split; [reflexivity|]. left.
       destruct (fl =? 0) eqn:Z; [apply N.eqb_eq in Z; subst fl; discriminate|].
       eexists. split; [reflexivity|]. simpl. rewrite WF. reflexivity.
+    + intros _. apply mem_rm_same.
   - (* another key *)
     assert (AR : mem k (match oCalls x with
-                        | [(_, true)] => k0 :: armed w
+                        | [] => armed w
                         | [(_, false)] => rm k0 (armed w)
-                        | _ => armed w end) = mem k (armed w)).
-    { destruct (oCalls x) as [|[a b] [|? ?]]; try reflexivity; destruct b; try reflexivity.
-      - rewrite mem_cons. assert (k =? k0 = false) as -> by (apply N.eqb_neq; congruence). reflexivity.
-      - apply mem_rm_other. exact NE. }
+                        | _ => k0 :: armed w end) = mem k (armed w)).
+    { assert (C1 : mem k (k0 :: armed w) = mem k (armed w)).
+      { rewrite mem_cons. assert (k =? k0 = false) as -> by (apply N.eqb_neq; congruence). reflexivity. }
+      destruct (oCalls x) as [|[a b] [|? ?]]; try reflexivity; destruct b; try exact C1.
+      apply mem_rm_other; exact NE. }
     assert (V : view (mkWorld p' (dropped w) (held w)
-                 (match oCalls x with | [(_, true)] => k0 :: armed w | [(_, false)] => rm k0 (armed w) | _ => armed w end)
+                 (match oCalls x with | [] => armed w | [(_, false)] => rm k0 (armed w) | _ => k0 :: armed w end)
                  (rm k0 (lost w)) (Marked k0 fl :: tr w)) k = view w k).
     { unfold view, look, nF, nR, wantsF, wantsR. cbn [pl dropped held armed tr lost].
       rewrite HL, HF, HR, HC, AR, finc_marked, relc_marked, far_marked_other, mem_rm_other by exact NE.
@@ -142,7 +145,7 @@ Lemma KInvV_env v d h a :
   (vDrop v = true -> vHeld v = false -> vArmed v = false -> a = false) ->
   KInvV (mkView (vLook v) (vNF v) (vNR v) (vClosed v) d h a (vFinc v) (vRelc v) (vFar v) (vWF v) (vWR v) (vLost v)).
 Proof.
-  intros [A1 A2 A3 A4 A5 A6 A7 A8 A9 A10 A11 A12 A13] Hd Hh Ha.
+  intros [A1 A2 A3 A4 A5 A6 A7 A8 A9 A10 A11 A12 A13 A14] Hd Hh Ha.
   unfold deadV, owesRV, owesFV in *.
   constructor; unfold deadV, owesRV, owesFV; cbn [vLook vNF vNR vClosed vDrop vHeld vArmed vFinc vRelc vFar vWF vWR vLost]; auto.
   - intros E. destruct (A2 E) as (D & H & A & R). repeat split; auto; tauto.
@@ -205,7 +208,7 @@ Proof.
     apply Kenv; auto.
     intros _ _ A. keq k0 k; [apply mem_rm_same|rewrite mem_rm_other by exact NE; exact A]. }
   assert (Kc : eKey c = k0) by (eapply lookup_key; exact L).
-  pose proof (K k0) as K0. destruct K0 as [A1 A2 A3 A4 A5 A6 A7 A8 A9 A10 A11 A12 A13].
+  pose proof (K k0) as K0. destruct K0 as [A1 A2 A3 A4 A5 A6 A7 A8 A9 A10 A11 A12 A13 A14].
   unfold deadV, owesRV, owesFV in *. cbn [view vLook vNF vNR vClosed vDrop vHeld vArmed vFinc vRelc vFar vWF vWR vLost] in *.
   rewrite LKr, L in *.
   assert (NF0 : nF w k0 = 0%nat).
@@ -285,7 +288,7 @@ Proof.
   unfold wantsF, wantsR. rewrite lastFlags_emit_fin. fold (wantsF k (tr w)) (wantsR k (tr w)).
   rewrite regList_same, closed_same. fold (look w k) (nF w k) (nR w k). change (occ k (keys [])) with 0%nat.
   rewrite C.
-  destruct K as [A1 A2 A3 A4 A5 A6 A7 A8 A9 A10 A11 A12 A13].
+  destruct K as [A1 A2 A3 A4 A5 A6 A7 A8 A9 A10 A11 A12 A13 A14].
   unfold deadV, owesRV, owesFV in *. cbn [view vLook vNF vNR vClosed vDrop vHeld vArmed vFinc vRelc vFar vWF vWR vLost] in *.
   rewrite C in *.
   assert (FAR : finAfterRel k (epoch k (emit Fin (keys (sort_desc (pendF (pl w)))) (tr w))) = false).
@@ -315,7 +318,7 @@ Proof.
   unfold wantsF, wantsR. rewrite lastFlags_emit_rel. fold (wantsF k (tr w)) (wantsR k (tr w)).
   rewrite regList_same, closed_same. fold (look w k) (nF w k) (nR w k). change (occ k (keys [])) with 0%nat.
   rewrite C.
-  destruct K as [A1 A2 A3 A4 A5 A6 A7 A8 A9 A10 A11 A12 A13].
+  destruct K as [A1 A2 A3 A4 A5 A6 A7 A8 A9 A10 A11 A12 A13 A14].
   unfold deadV, owesRV, owesFV in *. cbn [view vLook vNF vNR vClosed vDrop vHeld vArmed vFinc vRelc vFar vWF vWR vLost] in *.
   rewrite C in *.
   destruct (Nat.eq_dec (nR w k) 1) as [E1|E1].
@@ -347,44 +350,54 @@ Proof.
   fold finAll.
   split. { unfold GInv. cbn [pl regList reg]. rewrite keys_map_same by apply finAll_key. exact G'. }
   intros k. specialize (K k). rewrite view_env. cbn [regList reg pendF pendR closed].
-  rewrite !mem_keys_occ, finc_emit_fin, relc_emit_fin, occ_keys_sort.
+  assert (OCC : occ k (keys (sort_desc (pendF (pl w) ++ filter notFin r))) =
+                (nF w k + match lookup k r with Some c => if notFin c then 1 else 0 | None => 0 end)%nat).
+  { rewrite occ_keys_sort, occ_keys_app, occ_keys_filter by exact G'. reflexivity. }
+  rewrite !mem_keys_occ, finc_emit_fin, relc_emit_fin, OCC.
   unfold wantsF, wantsR. rewrite lastFlags_emit_fin. fold (wantsF k (tr w)) (wantsR k (tr w)).
-  rewrite lookup_map by apply finAll_key. rewrite occ_keys_filter by exact G'.
-  fold (nR w k) (nF w k). change (occ k (keys [])) with 0%nat.
+  rewrite lookup_map by apply finAll_key.
+  fold (nR w k). change (occ k (keys [])) with 0%nat.
   assert (LK : look w k = lookup k r) by (unfold look, regList; rewrite Hr; reflexivity).
   assert (CL : closed (pl w) = false) by (unfold closed; rewrite Hr; reflexivity).
-  destruct K as [A1 A2 A3 A4 A5 A6 A7 A8 A9 A10 A11 A12 A13].
+  destruct K as [A1 A2 A3 A4 A5 A6 A7 A8 A9 A10 A11 A12 A13 A14].
   unfold deadV, owesRV, owesFV in *. cbn [view vLook vNF vNR vClosed vDrop vHeld vArmed vFinc vRelc vFar vWF vWR vLost] in *.
-  rewrite LK, CL in *.
-  assert (FAR : finAfterRel k (epoch k (emit Fin (keys (sort_desc (filter notFin r))) (tr w))) = false).
-  { rewrite far_emit_fin; [exact A10|]. rewrite occ_keys_sort, occ_keys_filter by exact G'.
+  rewrite LK, CL in *. specialize (A14 eq_refl).
+  assert (FAR : finAfterRel k (epoch k (emit Fin (keys (sort_desc (pendF (pl w) ++ filter notFin r))) (tr w))) = false).
+  { rewrite far_emit_fin; [exact A10|]. rewrite OCC.
     destruct (Nat.eq_dec (relc k (tr w)) 1) as [E1|E1]; [|right; lia].
-    destruct (A9 E1) as [?|((_ & _ & _ & Z & _) & _)]; [discriminate|left; rewrite Z; reflexivity]. }
+    destruct (A9 E1) as [?|((_ & _ & _ & Z & Z2) & _)]; [discriminate|left; rewrite Z, Z2; reflexivity]. }
   rewrite FAR.
   destruct (lookup k r) as [c|] eqn:L; cbn [option_map].
   - assert (NR0 : nR w k = 0%nat).
     { destruct (Nat.eq_dec (nR w k) 1) as [E1|E1]; [|lia]. destruct (A6 E1) as ((_ & _ & _ & ? & _) & _). discriminate. }
     assert (RC : relc k (tr w) <> 1%nat).
     { intros E1. destruct (A9 E1) as [?|((_ & _ & _ & ? & _) & _)]; discriminate. }
+    (* the number of finaliser calls emitted for k now, and what it adds up to *)
+    assert (EM : (nF w k + (if notFin c then 1 else 0) + finc k (tr w) <= 1)%nat /\
+                 (wantsF k (tr w) = true -> (nF w k + (if notFin c then 1 else 0) + finc k (tr w) = 1)%nat)).
+    { unfold notFin. destruct (Nat.eq_dec (nF w k) 1) as [E1|E1].
+      - destruct (A2 E1) as (_ & _ & _ & F0 & Lc & _). rewrite (Lc c eq_refl). cbn [negb]. split; [lia|intros _; lia].
+      - assert (Z : nF w k = 0%nat) by lia. rewrite Z. destruct (eFin c) eqn:EF; cbn [negb].
+        + split; [lia|]. intros WF. destruct (A13 WF) as [E2|[(_ & [(c' & Hc & EF')|E2])|E2]]; [lia| |lia|congruence].
+          inversion Hc; subst c'. congruence.
+        + rewrite (A3 c eq_refl EF). split; [lia|intros _; lia]. }
+    destruct EM as [EM1 EM2].
     constructor; unfold deadV, owesRV, owesFV; cbn [vLook vNF vNR vClosed vDrop vHeld vArmed vFinc vRelc vFar vWF vWR vLost];
       try lia; try discriminate; auto.
     + intros c' Hc EF. inversion Hc; subst c'. rewrite finAll_fin in EF. discriminate.
-    + unfold notFin. destruct (eFin c) eqn:EF; cbn [negb]; [lia|]. rewrite (A3 c eq_refl EF). lia.
     + intros WR. destruct (A12 WR) as [?|(_ & [(c' & Hc & ER)|?])]; [lia| |lia].
       inversion Hc; subst c'. right. split; [reflexivity|]. left. exists (finAll c). rewrite finAll_rel. auto.
-    + intros WF. destruct (A13 WF) as [E1|[(_ & [(c' & Hc & EF')|E1])|E1]].
-      * left. unfold notFin. destruct (eFin c) eqn:EF; cbn [negb]; [lia|]. rewrite (A3 c eq_refl EF) in E1. lia.
-      * inversion Hc; subst c'. left. unfold notFin. rewrite EF'. cbn [negb]. rewrite (A3 c eq_refl EF'). lia.
-      * right. right. rewrite E1. reflexivity.
-      * right. right. rewrite E1. apply orb_true_r.
-  - cbn [Nat.eqb negb orb plus].
+  - rewrite Nat.add_0_r.
+    assert (EM : (nF w k + finc k (tr w) <= 1)%nat /\ (wantsF k (tr w) = true -> (nF w k + finc k (tr w) = 1)%nat)).
+    { destruct (Nat.eq_dec (nF w k) 1) as [E1|E1].
+      - destruct (A2 E1) as (_ & _ & _ & F0 & _). split; [lia|intros _; lia].
+      - assert (Z : nF w k = 0%nat) by lia. rewrite Z. split; [lia|].
+        intros WF. destruct (A13 WF) as [E2|[(_ & [(c' & Hc & EF')|E2])|E2]]; [lia|discriminate|lia|congruence]. }
+    destruct EM as [EM1 EM2].
     constructor; unfold deadV, owesRV, owesFV; cbn [vLook vNF vNR vClosed vDrop vHeld vArmed vFinc vRelc vFar vWF vWR vLost];
       try lia; try discriminate; auto.
-    + intros E2. destruct (A6 E2) as ((? & ? & ? & ? & ?) & ?). repeat split; auto.
-    + intros E2. destruct (A9 E2) as [?|((? & ? & ? & ? & ?) & ?)]; [discriminate|]. right. repeat split; auto.
-    + intros WF. destruct (A13 WF) as [E1|[(_ & [(c' & Hc & EF')|E1])|E1]]; [left; exact E1|discriminate| |].
-      * right. right. rewrite E1. reflexivity.
-      * right. right. rewrite E1. apply orb_true_r.
+    + intros E2. destruct (A6 E2) as ((? & ? & ? & ? & Z) & ?). rewrite Z. repeat split; auto.
+    + intros E2. destruct (A9 E2) as [?|((? & ? & ? & ? & Z) & ?)]; [discriminate|]. right. rewrite Z. repeat split; auto.
 Qed.
 
 Lemma step_pop w w' : Inv w -> wstep w EPop = Some w' -> Inv w'.
@@ -401,11 +414,11 @@ Proof.
   unfold wantsF, wantsR. rewrite lastFlags_emit_rel. fold (wantsF k (tr w)) (wantsR k (tr w)).
   rewrite occ_keys_filter by (rewrite keys_map_same by apply finAll_key; exact G').
   rewrite lookup_map by apply finAll_key.
-  rewrite !mem_keys_occ, occ_keys_sort, (occ_keys_filter notFin k r G').
+  rewrite !mem_keys_occ, occ_keys_sort, occ_keys_app, (occ_keys_filter notFin k r G').
   fold (nR w k) (nF w k). change (occ k (keys [])) with 0%nat.
   assert (LK : look w k = lookup k r) by (unfold look, regList; rewrite Hr; reflexivity).
   assert (CL : closed (pl w) = false) by (unfold closed; rewrite Hr; reflexivity).
-  destruct K as [A1 A2 A3 A4 A5 A6 A7 A8 A9 A10 A11 A12 A13].
+  destruct K as [A1 A2 A3 A4 A5 A6 A7 A8 A9 A10 A11 A12 A13 A14].
   unfold deadV, owesRV, owesFV in *. cbn [view vLook vNF vNR vClosed vDrop vHeld vArmed vFinc vRelc vFar vWF vWR vLost] in *.
   rewrite LK, CL in *.
   destruct (lookup k r) as [c|] eqn:L; cbn [option_map].
@@ -420,9 +433,10 @@ Proof.
     + intros WR. left. destruct (A12 WR) as [?|(_ & [(c' & Hc & ER)|?])]; [lia| |lia].
       inversion Hc; subst c'. rewrite ER. cbn [negb]. rewrite (A7 c eq_refl ER). lia.
     + intros WF. destruct (A13 WF) as [E1|[(_ & [(c' & Hc & EF')|E1])|E1]]; [left; exact E1| | |].
-      * inversion Hc; subst c'. right. right. unfold notFin. rewrite EF'. cbn. apply orb_true_r.
+      * inversion Hc; subst c'. right. right. unfold notFin. rewrite EF'. cbn [negb].
+        assert (Nat.eqb (nF w k + 1) 0 = false) as -> by (apply Nat.eqb_neq; lia). reflexivity.
       * right. right. rewrite E1. reflexivity.
-      * right. right. rewrite E1. rewrite !orb_true_r. reflexivity.
+      * right. right. rewrite E1. apply orb_true_r.
   - constructor; unfold deadV, owesRV, owesFV; cbn [vLook vNF vNR vClosed vDrop vHeld vArmed vFinc vRelc vFar vWF vWR vLost];
       try lia; try discriminate; auto.
     + intros WR. left. destruct (A12 WR) as [?|(_ & [(c' & Hc & ER)|?])]; [|discriminate|].
@@ -430,7 +444,7 @@ Proof.
       * destruct (A6 H) as (_ & Z). lia.
     + intros WF. destruct (A13 WF) as [E1|[(_ & [(c' & Hc & EF')|E1])|E1]]; [left; exact E1|discriminate| |].
       * right. right. rewrite E1. reflexivity.
-      * right. right. rewrite E1. rewrite !orb_true_r. reflexivity.
+      * right. right. rewrite E1. apply orb_true_r.
 Qed.
 
 Lemma step_inv w w' e : Inv w -> wstep w e = Some w' -> Inv w'.
